@@ -108,12 +108,19 @@ func (f *Font) nominalGlyph(r rune, notFound GID) (GID, bool) {
 
 // ---- Convert from font-space to user-space ----
 
-func (f *Font) emScaleX(v int16) Position    { return Position(v) * f.XScale / f.faceUpem }
-func (f *Font) emScaleY(v int16) Position    { return Position(v) * f.YScale / f.faceUpem }
+func (f *Font) emScaleX(v int16) Position    { return emMult(v, f.XScale, f.faceUpem) }
+func (f *Font) emScaleY(v int16) Position    { return emMult(v, f.YScale, f.faceUpem) }
 func (f *Font) emScalefX(v float32) Position { return emScalef(v, f.XScale, f.faceUpem) }
 func (f *Font) emScalefY(v float32) Position { return emScalef(v, f.YScale, f.faceUpem) }
 func (f *Font) emFscaleX(v int16) float32    { return emFscale(v, f.XScale, f.faceUpem) }
 func (f *Font) emFscaleY(v int16) float32    { return emFscale(v, f.YScale, f.faceUpem) }
+
+// emMult scales and rounds to the nearest integer, with the 16.16 multiplier of HarfBuzz
+// (a plain integer division truncates : one unit less for most of the kerning values)
+func emMult(v int16, scale, faceUpem int32) Position {
+	mult := (int64(scale) << 16) / int64(faceUpem)
+	return Position((int64(v)*mult + 1<<15) >> 16)
+}
 
 func emScalef(v float32, scale, faceUpem int32) Position {
 	return roundf(v * float32(scale) / float32(faceUpem))
